@@ -8,6 +8,8 @@ GEN = ['wrong_value', 'missing_execution', 'value_instead_of_error', 'error_inst
        'bad_arg_exception_instance', 'bad_arg_recurrent_marker', 'unexpected_default_call', 'missing_default_call',
        'over_execution', 'complete_count_ne_attempts', 'delivered_before_complete', 'mode_dependent_outcome']
 HANG = ['deadlock', 'cancel_hangs']
+C14K = ['node_start_twice_without_complete', 'node_complete_without_start', 'body_without_node_start', 'missing_node_complete',
+        'complete_reports_error_for_value', 'complete_reports_success_for_failure', 'complete_reports_other_exception']
 F = [
  dict(id='KF-DUP', family='dup_param', properties=['C15', 'C03', 'C01', 'C07', 'C08', 'C11', 'C12'],
       kinds=['parallel_dependencies_merged', 'parallel_dependencies_merged_permuted', 'wrong_arg_names', 'unexpected_args', 'wrong_case_routed',
@@ -16,7 +18,7 @@ F = [
       mechanism='two parameters of one node bound to the same upstream node collapse into one graph edge (nx.DiGraph holds one edge '
                 'A->B; the second kwarg_name overwrites the first, builder.py _add_node_pair_to_dag), so one parameter is silently not supplied',
       witness={'C15': 'witnesses/KF-DUP-build.json', 'C03': 'witnesses/KF-DUP.json'}),
- dict(id='KF-REC2', family='rec_two_scopes', properties=RUNP + ['C19'], kinds=GEN + HANG,
+ dict(id='KF-REC2', family='rec_two_scopes', properties=RUNP + ['C19'], kinds=GEN + HANG + C14K + ['wrong_case_routed'],
       mechanism='a recurrent destination that is reached from two sub-pipeline scopes (main pipeline and a switch case / one-of candidate / '
                 'second execution of a switch): while the subgraph re-iterates, the second scope takes the duplicate-request path of '
                 '_execute_node, reads the hidden result as None and _run_node stores and propagates that None (manager.py 309-314, 645-646)',
@@ -55,10 +57,17 @@ F = [
       kinds=['exception_saved', 'saved_more_than_once', 'write_once_store_failed_run', 'recurrent_marker_saved', 'saved_value_not_final'],
       mechanism='the contained exception of a losing one-of candidate is saved as that node\'s artifact (manager.py 333-340 + 645-649)',
       witness={'C19': 'witnesses/KF-STORE-CAND.json'}),
+ dict(id='KF-STORE-SLOW', family='suspending_store', properties=['C19'], kinds=['executed_node_not_saved'],
+      mechanism='_run_node publishes a node result before awaiting the artifact save (manager.py: set_node_result, then await '
+                'ctx.save_node_result); with a store whose save() really awaits, consumers proceed, the run ends and its final task sweep '
+                'cancels the save that is still in flight: the node was executed but its artifact is never saved',
+      witness={'C19': 'witnesses/KF-STORE-SLOW.json'}),
 ]
 for f in F:
     f['status'] = 'open'
 FIXED = [
+ 'fixed: property=C10 17020fc the early exit of a failed one-of candidate cancelled node executions other sub-pipelines were waiting for: None delivered as a value (witnesses/D28.json); also C03 C05',
+ 'fixed: property=C11 fd8858b with a suspending artifact store a recurrent subgraph was iterated again after exhaustion by a late task of its destination (witnesses/D29.json)',
  'fixed: property=C02 87ebcb3 hang when a required node raises an exception whose instances are falsy (witnesses/D27.json); also C05',
  'fixed: property=C09 59cf84d hang when a switch case that is also consumed directly comes after the switch node in the launch order (witnesses/D26.json); also C02',
  'fixed: property=C09 dee09f8 hang when the selected switch case was already computed for another consumer (witnesses/D4.json); also C02',
